@@ -890,10 +890,12 @@ class SimpleShape(DefinedShape):
             if a not in uvals:
                 uvals[a] = set()
             uvals[a].add(u)
-        for a, us in uvals.items():
-            us = sorted(us)
+        # Test the middle of every piece between two consecutive crossings,
+        # the pieces that begin or end at a vertex included
+        for a, segment in enumerate(jordan.segments):
+            us = sorted(uvals.get(a, set()) | {0, 1})
             umids = tuple((u0 + u1) / 2 for u0, u1 in zip(us[:-1], us[1:]))
-            points = jordan.segments[a].eval(umids)
+            points = segment.eval(umids)
             for point in points:
                 if not self.contains_point(point, boundary):
                     return False
